@@ -74,6 +74,12 @@ thread_local! {
     static QUIET: RefCell<bool> = const { RefCell::new(false) };
 }
 
+/// Set as soon as a VIOLATION line has been printed (see `main`).
+pub static VIOLATION_PRINTED: std::sync::atomic::AtomicBool = std::sync::atomic::AtomicBool::new(false);
+
+/// Fallback for panics that happened on another (rayon worker) thread and were re-thrown.
+static LAST_PANIC_ANY_THREAD: std::sync::Mutex<Option<PanicInfo>> = std::sync::Mutex::new(None);
+
 pub fn install_panic_hook() {
     let default = std::panic::take_hook();
     std::panic::set_hook(Box::new(move |info| {
@@ -88,6 +94,9 @@ pub fn install_panic_hook() {
             .location()
             .map(|l| (l.file().to_string(), l.line()))
             .unwrap_or_default();
+        if let Ok(mut g) = LAST_PANIC_ANY_THREAD.lock() {
+            *g = Some(PanicInfo { message: msg.clone(), file: file.clone(), line });
+        }
         LAST_PANIC.with(|p| {
             *p.borrow_mut() = Some(PanicInfo {
                 message: msg,
@@ -110,7 +119,7 @@ pub fn catch<T>(f: impl FnOnce() -> T) -> Result<T, PanicInfo> {
     QUIET.with(|q| *q.borrow_mut() = false);
     match r {
         Ok(v) => Ok(v),
-        Err(_) => Err(LAST_PANIC.with(|p| p.borrow_mut().take()).unwrap_or(PanicInfo {
+        Err(_) => Err(LAST_PANIC.with(|p| p.borrow_mut().take()).or_else(|| LAST_PANIC_ANY_THREAD.lock().ok().and_then(|g| g.clone())).unwrap_or(PanicInfo {
             message: "<unknown panic>".into(),
             file: String::new(),
             line: 0,
@@ -296,6 +305,7 @@ impl Ctx {
         });
         let _ = std::fs::write(&path, serde_json::to_string_pretty(&body).unwrap());
         if v.len() < 40 {
+            VIOLATION_PRINTED.store(true, std::sync::atomic::Ordering::SeqCst);
             println!("VIOLATION property={prop} replay={path}");
             println!("  key: {key}");
             println!("  what: {what}");
